@@ -35,6 +35,7 @@ CFG = """CONSTANTS
     Tpls = {tpls}
     MaxNL = {maxnl}
     MaxL = {maxl}
+    Focus = {focus}
     OnlyInvolutive = {invol}
     DistAll = {distall}
     LinMode = "doc"
@@ -53,8 +54,9 @@ CHECK_DEADLOCK FALSE
 """
 
 
-def cfg_text(tpls, maxnl, maxl, invol=False, distall=False) -> str:
+def cfg_text(tpls, maxnl, maxl, invol=False, distall=False, focus=True) -> str:
     return CFG.format(tpls="{" + ", ".join(f'"{t}"' for t in tpls) + "}", maxnl=maxnl, maxl=maxl,
+                      focus="TRUE" if focus else "FALSE",
                       invol="TRUE" if invol else "FALSE", distall="TRUE" if distall else "FALSE")
 
 
@@ -127,10 +129,14 @@ def observe(scn: dict) -> dict:
         obs["iso_error"] = f"{type(e).__name__}: {str(e)[:200]}"
     mapper = LinearLabelMapper(base, label_variables=lv, label_maps=lmaps)
     obs["lin"] = []
+    built: dict = {}       # one build_model per external enrichment
     for ev in scn["evals"]:
         try:
-            m = mapper.build_model(concs=pd.Series(pool, dtype=float), fluxes=pd.Series(flux, dtype=float),
-                                   external_label=float(lk.frac(ev["x"])))
+            x = lk.frac(ev["x"])
+            if x not in built:
+                built[x] = mapper.build_model(concs=pd.Series(pool, dtype=float), fluxes=pd.Series(flux, dtype=float),
+                                              external_label=float(x))
+            m = built[x]
             e = {k: float(lk.frac(v)) for k, v in fn_to_dict(ev["e"]).items()}
             de = m.get_right_hand_side(e)
             obs["lin"].append({"de": {k: float(v) for k, v in de.to_dict().items()}})
@@ -174,8 +180,13 @@ def base_crosscheck(scn: dict, obs: dict) -> str | None:
 
 
 def _work(scn: dict):
-    obs = observe(scn)
-    return judge(scn, obs), base_crosscheck(scn, obs)
+    try:
+        obs = observe(scn)
+        return judge(scn, obs), base_crosscheck(scn, obs)
+    except Exception:  # noqa: BLE001  (never let an exception object travel through the pool: unpicklable ones hang it)
+        import traceback
+
+        return None, "harness exception:\n" + traceback.format_exc()[-1500:]
 
 
 def case_key(scn: dict) -> str:
@@ -258,6 +269,17 @@ def doc_example_case() -> dict:
 
 
 def random_case(args) -> dict:
+    try:
+        return _random_case(args)
+    except MachineryError:
+        raise
+    except Exception:  # noqa: BLE001  (see _work)
+        import traceback
+
+        return {"id": args[1], "harness_exception": traceback.format_exc()[-1500:]}
+
+
+def _random_case(args) -> dict:
     """Random steady network: a path 0 -> X1 -> ... -> Xn -> 0, a ring X1 -> ... -> Xn -> X1, or a path with a
     branch X1 -> X2 + X3; one common flux v, pools dividing v, rate constants v / pool; random maps of the length
     the linear mapper accepts (permutations with probability 1/2, involutions 1/4, arbitrary 1/4)."""
@@ -360,27 +382,33 @@ def run(ctx: Ctx) -> int:
         raise MachineryError("LinMode=\"pinned\" (map read substrate -> product) should violate ThLinIsIso; "
                              f"TLC said {pinned.violated!r}: the specification has lost its teeth")
     rep.notes["pinned_shape_counterexample"] = "TLC: ThLinIsIso violated for LinMode=pinned (substrate -> product reading)"
+    # Focus: influx / efflux reactions take 3 maps (identity, reversal, constant 0) instead of all, otherwise the
+    # maps of a network's reactions multiply; the "free" family lifts that restriction on the small networks
     if ctx.quick:
         fams = [
-            dict(name="nl2", what="exhaustive: chain, cycle, tri, homo, label counts 1..2, all maps max(S,P)<=4 (2A->B: all 256)",
-                 tpls=["chain", "cycle", "homo"], maxnl=2, maxl=4),
-            dict(name="nl2b", what="exhaustive: A+B->C and A->B+C networks, label counts 1..2, all maps max(S,P)<=3",
-                 tpls=["bi", "split", "tri"], maxnl=2, maxl=3),
-            dict(name="invol", what="exhaustive: all networks, counts 1..3, involutive maps only, max(S,P)<=4",
-                 tpls=ALL_TPLS, maxnl=3, maxl=4, invol=True),
+            dict(name="perm3", what="exhaustive: 0->A->B->0, label counts 1..3, all maps of A->B (27 for 3 positions, 3-cycles)",
+                 tpls=["chain"], maxnl=3, maxl=3),
+            dict(name="nl2", what="exhaustive: A<->B, A+B->C, A->B+C, 2A->B networks, label counts 1..2, all maps max(S,P)<=3",
+                 tpls=["cycle", "bi", "split", "homo"], maxnl=2, maxl=3),
+            dict(name="free", what="exhaustive: chain, label counts 1..2, every map of every reaction (also influx/efflux)",
+                 tpls=["chain"], maxnl=2, maxl=2, focus=False),
+            dict(name="invol", what="exhaustive: all networks, counts 1..3, involutive maps only, max(S,P)<=3",
+                 tpls=ALL_TPLS, maxnl=3, maxl=3, invol=True),
             dict(name="deep", what="seeded simulation: all networks, counts 1..3, all maps max(S,P)<=6, independent distributions",
-                 tpls=ALL_TPLS, maxnl=3, maxl=6, distall=True, simulate="num=25", depth=80),
+                 tpls=ALL_TPLS, maxnl=3, maxl=6, distall=True, focus=False, simulate="num=20", depth=80),
         ]
     else:
         fams = [
-            dict(name="nl3", what="exhaustive: chain, cycle, tri, label counts 1..3, all maps (27 per 3-position reaction)",
+            dict(name="perm3", what="exhaustive: chain, cycle, label counts 1..3, all maps (27 per 3-position reaction, 3-cycles)",
                  tpls=["chain", "cycle"], maxnl=3, maxl=3),
-            dict(name="nl2", what="exhaustive: all networks, label counts 1..2, all maps max(S,P)<=4",
+            dict(name="nl2", what="exhaustive: all networks, label counts 1..2, all maps max(S,P)<=4 (2A->B and A+B->C: all 256)",
                  tpls=ALL_TPLS, maxnl=2, maxl=4),
+            dict(name="free", what="exhaustive: chain, cycle, 2A->B network, label counts 1..2, every map of every reaction (also influx/efflux)",
+                 tpls=["chain", "cycle", "homo"], maxnl=2, maxl=4, focus=False),
             dict(name="invol", what="exhaustive: all networks, counts 1..3, involutive maps only, max(S,P)<=6",
                  tpls=ALL_TPLS, maxnl=3, maxl=6, invol=True),
             dict(name="deep", what="seeded simulation: all networks, counts 1..3, all maps max(S,P)<=6, independent distributions",
-                 tpls=ALL_TPLS, maxnl=3, maxl=6, distall=True, simulate="num=600", depth=80),
+                 tpls=ALL_TPLS, maxnl=3, maxl=6, distall=True, focus=False, simulate="num=500", depth=80),
         ]
     scns = tlc_families(ctx, rep, fams)
     rep.exhaustive = True
@@ -395,10 +423,23 @@ def run(ctx: Ctx) -> int:
     for s in scns:
         if bool(s["involutive"]) != all_involutive(lk.norm_b(s["b"])):
             raise MachineryError("classifier and specification disagree on which maps are involutive")
-    if len(scns) < (1500 if ctx.quick else 15000) or n_inv < 200 or n_inv == len(scns):
+    if len(scns) < (1200 if ctx.quick else 8000) or n_inv < 200 or n_inv == len(scns):
         raise MachineryError(f"case family too small or one-sided: {len(scns)} cases, {n_inv} involutive")
     rep.notes["cases"] = {"total": len(scns), "all_maps_involutive": n_inv,
                           "by_template": {t: sum(1 for s in scns if s["tpl"] == t) for t in ALL_TPLS}}
+    # ---- binding self-test: one corrupted expected value must be noticed by the comparison ---------------------
+    probe = next(s for s in scns if s["involutive"] and s["tpl"] == "bi")
+    probe_obs = observe(probe)
+    if judge(probe, probe_obs) is None:          # (a tree that already fails the probe is reported below, as a verdict)
+        for which in (0, 1, 4):
+            bent = json.loads(json.dumps(probe))
+            de = bent["evals"][which]["de"]
+            k = sorted(de)[0]
+            de[k] = {"n": de[k]["n"] * 2 + 1, "d": de[k]["d"] * 2}
+            if judge(bent, probe_obs) is None:
+                raise MachineryError(f"a corrupted expected value (evaluation {which}) was not noticed by the replay comparison")
+    rep.notes["binding_selftest"] = "corrupting one expected rate (isotopomer-derived / linear / uniform) of a replayed case is " \
+                                    "detected; a corrupted recorded right-hand side is rejected by TLC (oracle)"
     results = pmap(_work, scns, chunk=16)
     agree_inv = 0
     for scn, (bad, cross) in zip(scns, results):
@@ -422,6 +463,16 @@ def run(ctx: Ctx) -> int:
     rnd = random.Random(ctx.seed)
     n_rand = 250 if ctx.quick else 3000
     cases += pmap(random_case, [(rnd.randrange(1 << 30), f"rand-{j}") for j in range(n_rand)], chunk=16)
+    bent = json.loads(json.dumps(cases[0]))
+    bent["id"] = "selftest-corrupted-observation"
+    if bent["evals"][1]["de"]:
+        k0 = sorted(bent["evals"][1]["de"])[0]
+        q0 = bent["evals"][1]["de"][k0]
+        bent["evals"][1]["de"][k0] = {"n": q0["n"] * 2 + 1, "d": q0["d"] * 2}
+    cases.append(bent)                           # (empty when the tree under test refused the example: rejected anyway)
+    for c in cases:
+        if "harness_exception" in c:
+            raise MachineryError(f"random driver failed on {c['id']}:\n{c['harness_exception']}")
     verdicts = {}
     batch = 800
     for lo in range(0, len(cases), batch):
@@ -433,6 +484,9 @@ def run(ctx: Ctx) -> int:
             verdicts[p["id"]] = p
     if len(verdicts) != len(cases):
         raise MachineryError(f"oracle judged {len(verdicts)} of {len(cases)} cases")
+    if verdicts["selftest-corrupted-observation"]["verdict"] == "accept":
+        raise MachineryError(f"TLC accepted a corrupted recorded right-hand side: {verdicts['selftest-corrupted-observation']}")
+    cases = [c for c in cases if c["id"] != "selftest-corrupted-observation"]
     hist: dict[str, int] = {}
     for c in cases:
         v = verdicts[c["id"]]
@@ -452,12 +506,11 @@ def run(ctx: Ctx) -> int:
                       "oracle_verdict": v["verdict"], "error": c.get("error")}
             rep.mismatch(scn, detail, classify(scn, detail) if "error" not in c else None)
     rep.notes["oracle_verdicts"] = hist
-    if verdicts["doc-tpi-ald"]["verdict"] != "accept" or not verdicts["doc-tpi-ald"]["involutive"]:
-        # the documented example uses involutive maps only: it must be accepted on any tree
-        pass
+    if not verdicts["doc-tpi-ald"]["involutive"]:
+        raise MachineryError("the documentation example's maps should all be involutive")
     rep.notes["doc_example"] = verdicts["doc-tpi-ald"]
-    if not any(k.startswith("accept/involutive") for k in hist):
-        raise MachineryError(f"oracle accepted no involutive case: {hist}")
+    if not any(k.endswith("/involutive") for k in hist) or not any(k.endswith("/non-involutive") for k in hist):
+        raise MachineryError(f"the random driver does not produce both involutive and non-involutive cases: {hist}")
     return rep.finish()
 
 
